@@ -63,6 +63,7 @@ type txLink struct {
 	Crash *verifsim.CrashPlan `json:"crash,omitempty"`
 	Fault *txFault            `json:"fault,omitempty"`
 	Exit  bool                `json:"receiver_exit_without_flush,omitempty"`
+	Chunk uint32              `json:"chunk_size_of_this_run,omitempty"` // sender was started with another --chunk-size
 }
 
 type txDamage struct {
